@@ -1,5 +1,6 @@
 import Ledger.Proofs.SchedOverdraft
 import Ledger.Sched.Writers
+import Ledger.Proofs.SchedHandles
 
 /-!
 # C06 — no account overdrawn beyond its allowance, under any interleaving
@@ -109,7 +110,7 @@ theorem commit_step (w : World) (s : Sid) (k : Out → Prog)
 
 /-- the funds check of a bounded send is made on the value `GetBalances` returned -/
 theorem send_checks_funds (q : Send) (x : Nat) (hq : q.allow = .bounded x) (fail refuse succ)
-    (o : Out) (ho : o.err = none) (hlt : (o.vals.headD 0) + (x : Int) < (q.amt : Int)) :
+    (o : Out) (ho : o.err = none) (hpos : q.amt ≠ 0) (hlt : (o.vals.headD 0) + (x : Int) < (q.amt : Int)) :
     (sendBody q fail refuse succ).next = some (.getBalances [q.src]) ∧
     (sendBody q fail refuse succ).cont o = refuse "insufficient-funds" := by
   unfold sendBody
@@ -131,6 +132,29 @@ theorem nonforced_revert_refuses_negative (q : Revert) (hf : q.force = false) (h
   intro hge
   have : (ob.vals.headD 0) = ob.vals.head?.getD 0 := by cases ob.vals <;> rfl
   omega
+
+/-! ## tie to the code: the statement sequences the real writers issue (regenerated on every check) -/
+
+/-- The writers' programs issue, along their success paths, exactly the modelled statements the REAL
+    controller stack issued (`Ledger.Generated.Handles`): bounded send with HASH_LOGS=SYNC and ASYNC,
+    unbounded send (no balance read), first write through the state tracker, revert. In particular
+    `GetBalances` — the statement with BOTH the zero-row insert and `FOR UPDATE` (a statement without
+    either is classified differently and breaks this fact) — precedes `UpdateVolumes` in the same
+    transaction for bounded sources and for reverts. -/
+theorem writers_follow_generated_handles :
+    (sendProg (exSend true (.bounded 0) 1 1) true).pathK okAnswers 40 = modelledKinds Generated.Handles.sendSyncBounded ∧
+    (sendProg (exSend false (.bounded 0) 0 0) true).pathK okAnswers 40 = modelledKinds Generated.Handles.sendAsyncBounded ∧
+    (sendProg (exSend true .unbounded 0 0) true).pathK okAnswers 40 = modelledKinds Generated.Handles.sendSyncUnbounded ∧
+    (sendProg (exSend true .unbounded 0 0) false).pathK okAnswers 40 = modelledKinds Generated.Handles.sendFirstWrite ∧
+    (revertProg exRevert true).pathK okAnswers 40 = modelledKinds Generated.Handles.revertSync ∧
+    (sendProg (exSend true (.bounded 0) 0 0) true).pathK (fun _ => {}) 40 = modelledKinds Generated.Handles.sendInsufficient := by
+  decide
+
+/-- handle discipline (the C07 fact, regenerated): in every captured write, every statement between
+    BEGIN and COMMIT/ROLLBACK runs on the transaction (or a savepoint of it), never on the pool — so the
+    balance read, its row locks and the volume update share one transaction. -/
+theorem handles_discipline : ∀ t ∈ Generated.Handles.all, disciplined false t.2 = true := by
+  decide
 
 /-! ## the counterexample: a never-used (account, asset) pair -/
 
